@@ -230,6 +230,49 @@ pub fn run(ctx: &mut Ctx) {
             item += 1;
         }
     }
+    // end-of-data family on strings: a prefix of one character class of every length (so that every fill level of
+    // the symbol and every phase of a triple/quadruple occurs) followed by a short tail of characters whose ASCII
+    // encodation needs two codewords (Latin-1 >= U+0080) or which force an ECI (beyond Latin-1)
+    {
+        let prefixes: [&[u8]; 6] = [b"A", b"a", b"7", b"A1", b"*>\r ", b".A-"];
+        let tails: [&str; 9] = ["\u{e9}", "\u{e9}\u{e9}", "\u{ff}", "\u{80}", "\u{e9}1", "1\u{e9}", "\u{e9}A", "\u{20ac}", "A\u{20ac}"];
+        let maxlen = if ctx.is_thorough() { 420 } else { 215 };
+        for (pi, pre) in prefixes.iter().enumerate() {
+            for len in 0..=maxlen {
+                if !ctx.mine(item) {
+                    item += 1;
+                    continue;
+                }
+                item += 1;
+                let head: String = (0..len).map(|i| pre[(i + pi) % pre.len()] as char).collect();
+                for t in tails {
+                    eval(ctx, &format!("{}{}", head, t), true, "string_tail_family");
+                }
+            }
+        }
+        // strings that are one Base256 field filling a symbol exactly, one less, one more
+        for cap in [3usize, 5, 8, 12, 18, 22, 30, 36, 44, 62, 86, 114, 144, 174, 204, 280, 368, 456, 576, 696, 816, 1050, 1304, 1558] {
+            for delta in -3i64..=2 {
+                if !ctx.mine(item) {
+                    item += 1;
+                    continue;
+                }
+                item += 1;
+                // Latin-1: latch + length (1 or 2) + n bytes; UTF-8: 241 27 first
+                let lat = cap as i64 - 2 + delta;
+                if lat > 0 && lat < 1556 {
+                    eval(ctx, &"\u{e9}".repeat(lat as usize), true, "string_capacity_family");
+                    eval(ctx, &"\u{e9}".repeat(lat as usize - (lat > 250) as usize), true, "string_capacity_family");
+                }
+                let utf = (cap as i64 - 4 + delta) / 3;
+                if utf > 0 && utf < 518 {
+                    eval(ctx, &"\u{20ac}".repeat(utf as usize), true, "string_capacity_family");
+                    eval(ctx, &format!("{}\u{3b1}", "\u{20ac}".repeat(utf as usize)), true, "string_capacity_family");
+                    eval(ctx, &format!("\u{3b1}\u{3b1}{}", "\u{20ac}".repeat(utf as usize)), true, "string_capacity_family");
+                }
+            }
+        }
+    }
     let n = ctx.budget(200_000, 20_000_000);
     for i in 0..n {
         let s = if i % 3 == 0 { gen_macro_string(&mut ctx.rng) } else { gen_string(&mut ctx.rng) };
